@@ -278,6 +278,14 @@ def r3_text(ck, F, tag, enc):
             r = p.ret
             if len(key) == 1 and r[0] == "call" and r[1].endswith("Formatter::<'a>::pad") and r[2][1][0] == "const":
                 disp[(LV, by_enc.get(key[0]))] = r[2][1][2]
+        if not disp:
+            # Display delegating to the table it must agree with: f.pad(self.as_str())
+            ps = [p for p in PathEval(b).run() if p.end == "return"]
+            if len(ps) == 1 and ps[0].ret[0] == "call" and ps[0].ret[1].endswith("Formatter::<'a>::pad") and show(ps[0].ret[2][1]).startswith("as_str(") \
+                    and "arg1" in show(ps[0].ret[2][1]):
+                for (ty_, n_), (how, text) in printed.items():
+                    if ty_ == LV:
+                        disp[(LV, n_)] = text
     b = F.body("<%s as core::fmt::Display>::fmt" % LF)
     D2 = ("discr", ("field", ("downcast", ("field", ("arg", 1), "0"), "Some"), "0"))
     D2b = ("discr", ("field", ("field", ("downcast", ("field", ("arg", 1), "0"), "Some"), "0"), "0"))
@@ -314,7 +322,7 @@ def r3_text(ck, F, tag, enc):
         if top is None:
             return None, {}, {}, []
         got_digits, got_names, other_accept = {}, {}, []
-        for cb in F.closures_of(top):
+        for cb in [top] + F.closures_of(top):
             for p in PathEval(cb).run():
                 if p.end != "return":
                     continue
@@ -330,13 +338,28 @@ def r3_text(ck, F, tag, enc):
                 else:
                     continue
                 # integer switches (digits): any explicit arm selects; boolean tests: the true edge selects
-                sel = [c for c in p.conds if (c[0] == ("arg", 2) and c[1] is not None) or (c[0] != ("arg", 2) and c[1] != 0)]
+                def is_digit_term(t):
+                    # the parsed number: the digit closure's parameter, or (in the function itself) the payload of
+                    # `s.parse::<usize>()` / `usize::from_str(s)`
+                    if t == ("arg", 2) and cb is not top:
+                        return True
+                    txt = show(t)
+                    return cb is top and t[0] in ("field", "downcast") and ("from_str(" in txt or "parse(" in txt)
+                sel = []
+                for c in p.conds:
+                    if is_digit_term(c[0]):
+                        if c[1] is not None:
+                            sel.append(c)
+                    elif c[0][0] == "discr" and cb is top:
+                        continue            # Result/Option plumbing around the two tables
+                    elif c[1] != 0:
+                        sel.append(c)
                 if len(sel) != 1:
                     other_accept.append("%s under %s" % (val, [(show(c[0]), c[1]) for c in p.conds]))
                     continue
                 c = sel[0]
                 ct = c[0]
-                if ct == ("arg", 2) and isinstance(c[1], int):
+                if is_digit_term(ct) and isinstance(c[1], int):
                     got_digits[c[1]] = val
                 elif ct[0] == "call" and ct[1] == "core::str::<impl str>::eq_ignore_ascii_case" and ct[2][1][0] == "const":
                     got_names[("nocase", ct[2][1][2])] = val
@@ -437,6 +460,20 @@ def r4_published(ck, F, tag, enc, census):
             if len(d) == 1:
                 rows[d[0][1]] = sw[0][2][1]
         v_none, v_some = rows.get(0), rows.get(1)
+        if not rows:
+            # the encoding delegated to the module's own helper: set_max stores filter_as_usize(&self.0); take the table
+            # from that function instead
+            ps = [p for p in PathEval(setm).run() if p.end == "return"]
+            sw = [c for p in ps for c in p.calls if c[1].get("path", "").endswith("::swap") or c[1].get("path", "").endswith("::store")]
+            fa = F.body(M + "filter_as_usize")
+            if len(ps) == 1 and len(sw) == 1 and fa is not None and show(sw[0][2][1]).startswith("filter_as_usize(") and "arg1" in show(sw[0][2][1]):
+                for q in PathEval(fa).run():
+                    if q.end != "return":
+                        continue
+                    d = [c for c in q.conds if c[0][0] == "discr"]
+                    if len(d) == 1:
+                        rows[d[0][1]] = q.ret
+                v_none, v_some = rows.get(0), rows.get(1)
         ok_none = v_none is not None and v_none[0] == "const" and v_none[2] == enc["OFF"]
         ok_some = v_some is not None and v_some[0] == "cast" and v_some[2][0] == "discr"
         if ok_none:
